@@ -2,6 +2,7 @@ import GqlProofs.Grammar.Sound
 import GqlProofs.Grammar.Reject
 import GqlProofs.Grammar.PrintQuery
 import GqlProofs.Parser.SoundTop
+import GqlProofs.Parser.RetQuery
 /-
   C05 — the query parser accepts exactly the executable grammar, faithfully.
 
@@ -311,6 +312,133 @@ example : (parseQuery 0 [113,117,101,114,121,123,97,58,97,125]).isOk = true ∧
     (runQuery 0 [113,117,101,114,121,123,97,58,97,125]).1.ops.map printOperation
       = [[tP .braceL, tName [97], tP .braceR]] := ⟨by decide, by decide⟩
 
+/-! ### the converse on printed trees: parse ∘ print = id (up to positions)
+
+  `Fwd p a R` (`GqlProofs/Parser/Fwd.lean`) is the forward counterpart of `Spec`: from every live
+  state with abstraction `a`, the run of `p` ends live with `R result (abs final)` — unless it
+  runs out of fuel, which the C01 theorems exclude at the entry points.  `Starts σ ts σ'`: the
+  stream `σ` starts with tokens whose grammar view is `ts`, followed by `σ'`.  `erasePos`
+  (`GqlProofs/Parser/ErasePos.lean`) replaces every position by `Pos.zero`.
+
+  Side conditions.  `PrintableQuery d` = every definition is well-formed (`WFOperation`,
+  `WFFragment`: exactly the conditions of `C05_print_in_grammar`), the parts of the tree the
+  unparser does not print are the ones the parser builds (`OpOK`/`FragOK`/`ValueOK`: a Name
+  literal has the kind its text determines, scalar values have no children, list items have no
+  names, list and object values have no raw text), and each definition list is in the order of
+  its recorded positions.  Names, numbers and strings need no condition of their own: the
+  hypothesis "the significant tokens of `inp` are `printQuery d`" already says the lexer
+  produced them. -/
+
+/-- **parse ∘ print.**  If the comment-free token sequence of `inp` is the unparse of a printable
+    tree `d`, the parser accepts `inp` and returns `d` up to positions. -/
+theorem C05_parse_print (d : QueryDoc) (hp : PrintableQuery d) (inp : Bytes)
+    (htok : tokensOf inp = some (printQuery d)) :
+    ∃ d', parseQuery 0 inp = .ok d' ∧ d'.erasePos = d.erasePos :=
+  parseQuery_print d hp inp htok
+
+/-- the same for any sequence of definition blocks in any order (`BlockOK`: an operation written
+    as `printOperation o` or in the long form `opLong o` with its keyword, a fragment as
+    `printFragment f`): the operations and the fragments come back in block order -/
+theorem C05_parse_print_blocks (blocks : List (Def × List Tok)) (hok : ∀ b ∈ blocks, BlockOK b) (inp : Bytes)
+    (htok : tokensOf inp = some (blocks.flatMap (·.2))) :
+    ∃ d', parseQuery 0 inp = .ok d' ∧
+      d'.ops.map OperationDef.erasePos = (opsOf (blocks.map (·.1))).map OperationDef.erasePos ∧
+      d'.frags.map FragmentDef.erasePos = (fragsOf (blocks.map (·.1))).map FragmentDef.erasePos :=
+  parseQuery_blocks blocks hok inp htok
+
+/-- in particular: all operations first (each with its keyword), then all fragments — the order and
+    spelling of a formatter that never uses the query shorthand; no condition on positions -/
+theorem C05_parse_print_long (d : QueryDoc) (hops : ∀ o ∈ d.ops, WFOperation o ∧ OpOK o)
+    (hfrags : ∀ f ∈ d.frags, WFFragment f ∧ FragOK f) (inp : Bytes)
+    (htok : tokensOf inp = some ((d.ops.map opLong ++ d.frags.map printFragment).flatten)) :
+    ∃ d', parseQuery 0 inp = .ok d' ∧ d'.erasePos = d.erasePos := by
+  let blocks : List (Def × List Tok) := d.ops.map (fun o => (.inl o, opLong o)) ++ d.frags.map (fun f => (.inr f, printFragment f))
+  have hflat : blocks.flatMap (·.2) = (d.ops.map opLong ++ d.frags.map printFragment).flatten := by
+    simp [blocks, List.flatMap_def, List.map_map, Function.comp_def]
+  have hfst : blocks.map (·.1) = d.ops.map Sum.inl ++ d.frags.map Sum.inr := by
+    simp [blocks, List.map_map, Function.comp_def]
+  have hok : ∀ b ∈ blocks, BlockOK b := by
+    intro b hb
+    simp only [blocks, List.mem_append, List.mem_map] at hb
+    rcases hb with ⟨o, ho, rfl⟩ | ⟨f, hf, rfl⟩
+    · exact ⟨(hops o ho).2, (hops o ho).1, .inr rfl⟩
+    · exact ⟨(hfrags f hf).2, (hfrags f hf).1, rfl⟩
+  obtain ⟨d', h1, h2, h3⟩ := parseQuery_blocks blocks hok inp (by rw [hflat]; exact htok)
+  rw [hfst, opsOf_append, opsOf_inl, opsOf_inr, List.append_nil] at h2
+  rw [hfst, fragsOf_append, fragsOf_inl, fragsOf_inr, List.nil_append] at h3
+  exact ⟨d', h1, by simp [QueryDoc.erasePos, h2, h3]⟩
+
+/-- every tree the parser returns is printable … -/
+theorem C05_parse_printable (inp : Bytes) (d : QueryDoc) (h : parseQuery 0 inp = .ok d) : PrintableQuery d :=
+  parseQuery_printable inp d h
+
+/-- … so **parse ∘ print ∘ parse = parse**: unparse an accepted tree, write the tokens in any way the
+    lexer reads back (`inp'`), parse again: the same tree up to positions -/
+theorem C05_parse_print_parse (inp inp' : Bytes) (d : QueryDoc) (h : parseQuery 0 inp = .ok d)
+    (htok : tokensOf inp' = some (printQuery d)) :
+    ∃ d', parseQuery 0 inp' = .ok d' ∧ d'.erasePos = d.erasePos :=
+  parseQuery_print_parse inp inp' d h htok
+
+/-- a printable non-empty tree is well-formed in the sense of `C05_print_in_grammar` -/
+theorem C05_printable_wf (d : QueryDoc) (hp : PrintableQuery d) (hne : d.ops ≠ [] ∨ d.frags ≠ []) : WFQuery d :=
+  ⟨hne, fun o ho => (hp.1 o ho).1, fun f hf => (hp.2.1 f hf).1⟩
+
+/-- the pieces, bottom-up (each: a run on a stream that starts with the printed tokens of a
+    subtree ends live, consumes exactly them and returns the subtree up to positions; optional
+    trailing parts need a condition on the token that follows) -/
+theorem C05_parse_print_value (c : Bool) (v : Value) (hok : ValueOK v) (hc : c = true → ConstValue v)
+    (n : Nat) (a : AS) (σ' : Stream) (hs : Starts a.σ (printValue v) σ') :
+    Fwd (parseValueLiteral n c) a (fun v' a' => v'.erasePos = v.erasePos ∧ a'.σ = σ') :=
+  fwd_value c v hok hc n a σ' hs
+
+theorem C05_parse_print_type (ty : GType) (n : Nat) (a : AS) (σ' : Stream) (hs : Starts a.σ (printType ty) σ')
+    (hfol : ty.nonNull = false → σ'.head.kind ≠ .bang) :
+    Fwd (parseTypeReference n) a (fun y a' => y.erasePos = ty.erasePos ∧ a'.σ = σ') :=
+  fwd_type ty n a σ' hs hfol
+
+theorem C05_parse_print_arguments (c : Bool) (as : List Argument) (hok : ArgsOK as)
+    (hc : c = true → ∀ x ∈ as, ConstValue x.value) (n : Nat) (a : AS) (σ' : Stream)
+    (hs : Starts a.σ (printArguments as) σ') (hfol : as = [] → σ'.head.kind ≠ .parenL) :
+    Fwd (parseArguments n c) a (fun ys a' => ys.map Argument.erasePos = as.map Argument.erasePos ∧ a'.σ = σ') :=
+  fwd_arguments c as hok hc n a σ' hs hfol
+
+theorem C05_parse_print_directives (c : Bool) (ds : List Directive) (hok : DirsOK ds) (hc : c = true → ConstDirectives ds)
+    (n : Nat) (a : AS) (σ' : Stream) (hs : Starts a.σ (printDirectives ds) σ')
+    (h1 : σ'.head.kind ≠ .at) (h2 : σ'.head.kind ≠ .parenL) :
+    Fwd (parseDirectives n c) a (fun ys a' => ys.map Directive.erasePos = ds.map Directive.erasePos ∧ a'.σ = σ') :=
+  fwd_directives c ds hok hc n a σ' hs h1 h2
+
+theorem C05_parse_print_variable_definitions (vs : List VarDef) (hok : ∀ v ∈ vs, VarDefOK v) (hwf : ∀ v ∈ vs, WFVarDef v)
+    (n : Nat) (a : AS) (σ' : Stream) (hs : Starts a.σ (printVarDefs vs) σ') (hfol : vs = [] → σ'.head.kind ≠ .parenL) :
+    Fwd (parseVariableDefinitions n) a (fun ys a' => ys.map VarDef.erasePos = vs.map VarDef.erasePos ∧ a'.σ = σ') :=
+  fwd_varDefs vs hok hwf n a σ' hs hfol
+
+/-- `Selection`: what follows must not be `:`, `(`, `@` or `{` (it is a Name, `...` or `}`) -/
+theorem C05_parse_print_selection (s : Selection) (hok : SelOK s) (hwf : WFSelection s) (n : Nat) (a : AS) (σ' : Stream)
+    (hs : Starts a.σ (printSelection s) σ') (hfol : FolSel σ') :
+    Fwd (parseSelection n) a (fun y a' => y.erasePos = s.erasePos ∧ a'.σ = σ') :=
+  fwd_selection s hok hwf n a σ' hs hfol
+
+theorem C05_parse_print_selection_set (ss : Selections) (hok : SelsOK ss) (hwf : WFSelections ss) (hne : ss ≠ .nil)
+    (n : Nat) (a : AS) (σ' : Stream) (hs : Starts a.σ (printSelectionSet ss) σ') :
+    Fwd (parseRequiredSelectionSet n) a (fun y a' => y.erasePos = ss.erasePos ∧ a'.σ = σ') :=
+  fwd_requiredSelectionSet ss hok hwf hne n a σ' hs
+
+theorem C05_parse_print_operation_long (o : OperationDef) (hok : OpOK o) (hwf : WFOperation o) (n : Nat) (a : AS) (σ' : Stream)
+    (hs : Starts a.σ (opLong o) σ') :
+    Fwd (parseOperationDefinition n) a (fun y a' => y.erasePos = o.erasePos ∧ a'.σ = σ') :=
+  fwd_opLong o hok hwf n a σ' hs
+
+theorem C05_parse_print_operation_short (o : OperationDef) (hok : OpOK o) (hwf : WFOperation o)
+    (hbare : OperationDef.isBare o = true) (n : Nat) (a : AS) (σ' : Stream) (hs : Starts a.σ (printSelectionSet o.sel) σ') :
+    Fwd (parseOperationDefinition n) a (fun y a' => y.erasePos = o.erasePos ∧ a'.σ = σ') :=
+  fwd_opShort o hok hwf hbare n a σ' hs
+
+theorem C05_parse_print_fragment_definition (f : FragmentDef) (hok : FragOK f) (hwf : WFFragment f) (n : Nat) (a : AS)
+    (σ' : Stream) (hs : Starts a.σ (printFragment f) σ') :
+    Fwd (parseFragmentDefinition n) a (fun y a' => y.erasePos = f.erasePos ∧ a'.σ = σ') :=
+  fwd_fragment f hok hwf n a σ' hs
+
 #print axioms C05_print_in_grammar
 #print axioms C05_print_canonical
 #print axioms C05_recognise_sound
@@ -334,3 +462,12 @@ example : (parseQuery 0 [113,117,101,114,121,123,97,58,97,125]).isOk = true ∧
 #print axioms C05_parse_sound_fragment_definition
 #print axioms C05_parse_empty_tree
 #print axioms C05_parse_empty_counterexample
+#print axioms C05_parse_print
+#print axioms C05_parse_print_blocks
+#print axioms C05_parse_print_long
+#print axioms C05_parse_printable
+#print axioms C05_parse_print_parse
+#print axioms C05_parse_print_value
+#print axioms C05_parse_print_selection
+#print axioms C05_parse_print_operation_long
+#print axioms C05_parse_print_fragment_definition
